@@ -186,9 +186,39 @@ func newError(rt *runtime, name string, stackFramesToPop int, in ...interface{})
 	} else if length > 0 {
 		description, in = in[0].(string), in[1:]
 	}
-	err.message = err.describe(description, in...)
+	err.message = err.describe(description, describeOperands(in)...)
 
 	return err
+}
+
+// describeOperands replaces every operand that is an object Value by a description that runs no
+// script code: formatting the Value itself would call its toString / valueOf.
+func describeOperands(in []interface{}) []interface{} {
+	var out []interface{}
+	for i, operand := range in {
+		vl, ok := operand.(Value)
+		if !ok || vl.kind != valueObject {
+			continue
+		}
+		if out == nil {
+			out = append([]interface{}{}, in...)
+		}
+		obj := vl.object()
+		switch fn := obj.value.(type) {
+		case nodeFunctionObject:
+			out[i] = fn.node.source
+		case nativeFunctionObject:
+			out[i] = fmt.Sprintf("function %s() { [native code] }", fn.name)
+		case bindFunctionObject:
+			out[i] = "function () { [native code] }"
+		default:
+			out[i] = "[object " + obj.class + "]"
+		}
+	}
+	if out == nil {
+		return in
+	}
+	return out
 }
 
 func (rt *runtime) panicTypeError(argumentList ...interface{}) *exception {
